@@ -132,6 +132,7 @@ class ControlFlowTransformer(converter.Base):
 
   def _get_block_basic_vars(self, modified, live_in, live_out):
     nonlocals = self.state[_Function].scope.nonlocals
+    globals_ = self.state[_Function].scope.globals
     basic_scope_vars = []
     for s in modified:
       if s.is_composite():
@@ -139,7 +140,8 @@ class ControlFlowTransformer(converter.Base):
         continue
       # Variables not live into or out of the scope are considered local to the
       # scope.
-      if s in live_in or s in live_out or s in nonlocals:
+      if (s in live_in or s in live_out or s in nonlocals or
+          s in globals_):
         basic_scope_vars.append(s)
       continue
     return frozenset(basic_scope_vars)
